@@ -1,16 +1,39 @@
 import PGT.Proofs.FromFlat
+import PGT.Proofs.FromTotal
 /-
 C06 – Malformed input becomes diagnostics, never a panic.
 Full statement: `C06_full_from` / `C06_full_to`. Proved for every field kind: the missing-attribute and wrong-type
 branches of CopyFrom (`C06_missing`, `C06_wrong_type`) and the missing-type branch of CopyTo (`C06_to_missing`);
 for scalar fields: totality for arbitrary attribute values (`C06_scalar_total`).
-Known counterexample to the full statement: finding F2 (nil embedded parent with message / list / map children).
+`C06_from_total`: CopyFrom never panics – for every IR, every object, every prior struct (finding F2 is repaired in /repo).
 -/
 namespace PGT.Props.C06
 open PGT PGT.Spec
 
+/-- the "never panics" clause of C06 for CopyFrom at full strength: every IR, every Terraform value, every prior
+content of the target struct -/
 def C06_full_from : Prop :=
-  ∀ (ov : List (String × String)) (m : Msg) (tf : TfVal) (prior : GoVal) (w : String), copyFrom ov m tf prior ≠ .panic w
+  ∀ (ov : List (String × String)) (m : Msg) (tf : TfVal) (prior : List (String × GoVal)) (w : String),
+    copyFrom ov m tf (.struct prior) ≠ .panic w
+
+/-- **C06, CopyFrom never panics – proved at full strength** (mutual induction over the IR in `PGT/Proofs/FromTotal.lean`;
+invariant: a field of a nullable embedded message is only written after the embedded message has been allocated). -/
+theorem C06_from_total : C06_full_from := copyFrom_noPanic
+
+/-- non-vacuity: a message with a list child of a nullable embedded message, read from an object whose list is known,
+into a struct without the embedded message – the shape that panicked before finding F2 was repaired -/
+theorem C06_from_total_example :
+    (match copyFrom [] { info := { name := "Root" }, fields :=
+        [{ info := { name := "L", nameSnake := "l", kind := .primitiveList, isRepeated := true, protoType := "string",
+                     parentIsOptionalEmbed := true, parentIsOptionalEmbedFieldName := "Emb", parentIsOptionalEmbedFullType := "Emb",
+                     tf := { valueType := "github.com/hashicorp/terraform-plugin-framework/types.List",
+                             elemValueType := "github.com/hashicorp/terraform-plugin-framework/types.String",
+                             valueCastToType := "string", valueCastFromType := "string", zeroValue := "\"\"" } } }] }
+      (.obj false false (some [("l", .list false false (some [.prim .string false false (.str [104])]) (some (.prim .string)))]) none)
+      (.struct []) with
+     | .ok r => r.diags.isEmpty && (match r.obj.field? "Emb" with | some (.ptr (some _)) => true | _ => false)
+     | _ => false) = true := by
+  decide
 
 /-- every attribute missing from the object produces exactly one error diagnostic that names the field's path, and
 nothing is written – for every field kind but custom (whose hook is still called, see C17) -/
